@@ -147,6 +147,8 @@ func main() {
 		runInject(r, g, *tier, *what, *replay, *out, extra)
 	case "live":
 		runLive(r, g, *tier, *what, *replay, *out, extra)
+	case "recur":
+		runRecur(r, g, *tier, *what, *replay, *out, extra)
 	case "conc":
 		runConc(r, g, *tier, *what, *out, extra)
 	default:
